@@ -3,7 +3,7 @@ import copy
 import datetime as _dt
 import io
 
-from sim import core, fakes, install, world
+from sim import core, fakes, gen, install, world
 from sim.core import substream
 from sim.install import CTX
 from checks import c13
@@ -25,7 +25,7 @@ COMPONENTS = {
     'reference': ['sim/ref_sigv4.py (AWS SigV4 for S3 from the published algorithm)'],
 }
 ASSUMPTIONS = ['FakeS3 canonicalises like S3: path segments and query pairs percent-decoded then re-encoded with the AWS unreserved set, + in a query means space']
-PROBES = ['redirected', 'retry_signed', 'date_rollover', 'host_mixed_case', 'host_default_port', 'host_custom_port', 'token_special', 'stream_upload', 'list_multi_page', 'name_special', 'aws_s3_class']
+PROBES = ['redirected', 'retry_signed', 'date_rollover', 'host_mixed_case', 'host_default_port', 'host_custom_port', 'token_special', 'stream_upload', 'stream_short_reads', 'list_multi_page', 'name_special', 'aws_s3_class']
 TIERS = {'quick': {'budget_s': 50, 'batch': 20}, 'thorough': {'budget_s': 600, 'batch': 40}}
 
 
@@ -133,7 +133,11 @@ def run_case(case):
                     await ops.call('upload', op['name'], data)
                 elif kind == 'upload_stream':
                     probes['stream_upload'] = 1
-                    await ops.call('upload_stream', op['name'], io.BytesIO(data), len(data), op['chunk'])
+                    stream = io.BytesIO(data)
+                    if substream(case['sched_seed'], f'short{i}').random() < 0.5:
+                        stream = gen.ShortReads(data, substream(case['sched_seed'], f'short-reads{i}'))
+                        probes['stream_short_reads'] = 1
+                    await ops.call('upload_stream', op['name'], stream, len(data), op['chunk'])
                 elif kind == 'delete':
                     await ops.call('delete', op['name'])
                 elif kind == 'exists':
